@@ -154,7 +154,7 @@ in front (`base`), the element data. -/
 structure Sample (α : Type) where
   base : Nat
   data : List α
-  deriving Repr
+  deriving Repr, DecidableEq
 
 abbrev Mem (α : Type) := List (Sample α)
 
